@@ -2035,7 +2035,7 @@ func ruleHD7() Rule {
 					if i <= lastLoop {
 						continue
 					}
-					if ifs, isIf := st.(*ast.IfStmt); isIf && c.callsFunc(info, ifs.Cond, exists) && errFn != nil && c.callsFunc(info, ifs.Body, errFn) {
+					if ifs, isIf := st.(*ast.IfStmt); isIf && c.callsFunc(info, ifs.Cond, exists) && errFn != nil && c.callsReporter(info, ifs.Body) {
 						// no further condition: a nested lexer stops at its closing `)` without reaching
 						// end of input, a test of an eof flag would exempt `$(cat <<E)`
 						if _, isCall := ast.Unparen(ifs.Cond).(*ast.CallExpr); isCall {
@@ -2097,6 +2097,54 @@ func ruleLBK() Rule {
 				rr.OK(f, key, nl.cc.Pos(), "hands-over", "the newline case tests heredoc.exists() and lets the bodies be read")
 			} else {
 				rr.Bad(f, key, nl.cc.Pos(), "linebreak consumes the newline without asking whether a here-document is announced: for `cat <<E &&` followed by a newline the body lines are parsed as commands and the body attached later is wrong (`cat <<E && body`)")
+			}
+			// HD8b: the reader moves the cursor over whole lines; the position of the
+			// next token must be taken afterwards
+			if reader := c.heredocReader(nil); reader != nil {
+				markFn := c.fn("parser.(*lexer).mark")
+				isCallOf := func(g *core.Func) func(ast.Node) bool {
+					return func(n ast.Node) bool {
+						call, ok := n.(*ast.CallExpr)
+						if !ok || g == nil {
+							return false
+						}
+						fo := core.StaticCallee(info, call)
+						return fo != nil && c.P.FuncOf(fo) == g
+					}
+				}
+				nReader := 0
+				f.OwnNodes(func(n ast.Node) bool {
+					if isCallOf(reader)(n) {
+						nReader++
+					}
+					return true
+				})
+				if nReader > 0 {
+					marked := core.NewFlow(f).MustSeen(true, isCallOf(markFn), isCallOf(reader))
+					readFn := c.fn("parser.(*lexer).read")
+					bad := token.NoPos
+					f.OwnNodes(func(n ast.Node) bool {
+						switch x := n.(type) {
+						case *ast.ReturnStmt:
+							if len(x.Results) == 1 {
+								if tv, ok := info.Types[x.Results[0]]; ok && tv.Value != nil && tv.Value.String() == "true" && !marked[x] {
+									bad = x.Pos()
+								}
+							}
+						case *ast.CallExpr:
+							if isCallOf(readFn)(x) && !marked[x] {
+								bad = x.Pos()
+							}
+						}
+						return true
+					})
+					key := f.Name + "|position re-marked after the bodies were read"
+					if bad == token.NoPos {
+						rr.OK(f, key, nl.cc.Pos(), "marked", "mark() follows the body reader before the next character is read or linebreak returns")
+					} else {
+						rr.Bad(f, key, bad, "after the here-document bodies have been read linebreak goes on without mark(): the token that follows (`true` in `cat <<E &&` newline body newline `E` newline `true`) is recorded at the position of the line the bodies started on")
+					}
+				}
 			}
 			// LB2
 			key = f.Name + "|blanks before the newline"
@@ -2747,9 +2795,21 @@ func ruleSRC2() Rule {
 						if fo := core.StaticCallee(info, x); fo != nil && fo.Pkg() != nil {
 							switch fo.Pkg().Path() {
 							case "bytes", "strings", "bufio":
-								if len(x.Args) == 1 && isCallers(x.Args[0], at) {
-									rr.OK(f, key, pos, "std reader", fo.Pkg().Path()+"."+fo.Name()+" over the caller's value itself")
-									return
+								if len(x.Args) >= 1 && isCallers(x.Args[0], at) {
+									// further arguments (a buffer size) must not be made from the source
+									clean := true
+									for _, a := range x.Args[1:] {
+										ast.Inspect(a, func(y ast.Node) bool {
+											if id, ok := y.(*ast.Ident); ok && isCallers(id, at) {
+												clean = false
+											}
+											return clean
+										})
+									}
+									if clean {
+										rr.OK(f, key, pos, "std reader", fo.Pkg().Path()+"."+fo.Name()+" over the caller's value itself")
+										return
+									}
 								}
 								rr.Bad(f, key, pos, "the lexer reads `"+exprStr(e)+"`: a reader over something derived from the caller's source, not over the source itself - a copy of a stream is never advanced for the caller (successive calls re-read the same text), and a rewritten text (line endings, byte order mark) is not the program that was given, also inside quotes and here-documents")
 								return
